@@ -10,7 +10,7 @@ EXTENDS Sidecar, Json
 Trace == ndJsonDeserialize("c16trace.ndjson")
 VARIABLE l
 
-PcClass(pc) == IF pc \in {"t_stat", "t_remove", "t_create"} THEN pc ELSE "ret"
+PcClass(pc) == IF pc \in {"t_stat", "t_remove", "t_create", "killed"} THEN pc ELSE "ret"
 Root(name, up) == [born |-> "unset", marker |-> "unset", role |-> "app", crash |-> FALSE, upload |-> up, upvar |-> FALSE,
                    pc |-> IF up THEN "t_stat" ELSE "done", seen |-> "none", acq |-> FALSE]
 
@@ -18,18 +18,24 @@ TInit == /\ mode = "on" /\ initToken = "absent" /\ localOK = TRUE
          /\ cfg = [s \in Starters |-> [marker |-> "unset", crash |-> FALSE, upload |-> TRUE]]
          /\ token = "absent" /\ local = "present" /\ wrote = {} /\ ev = {}
          /\ procs = [id \in {<<s>> : s \in Starters} |-> Root(id[1], FALSE)]
-         /\ l = 1
+         /\ nf = 0 /\ l = 1
 Reset == /\ l <= Len(Trace) /\ Trace[l].t = "init"
          /\ initToken' = Trace[l].init /\ token' = Trace[l].init
          /\ procs' = [id \in {<<s>> : s \in Starters} |-> Root(id[1], \E k \in 1..Len(Trace[l].starters) : Trace[l].starters[k] = id[1])]
-         /\ wrote' = {} /\ ev' = {}
+         /\ wrote' = {} /\ ev' = {} /\ nf' = 0
          /\ UNCHANGED <<mode, localOK, cfg, local>>
          /\ l' = l + 1
+(* a line with fault = TRUE is a system call the harness made fail (Stat with  *)
+(* an I/O error, Remove and the create with a permission error); a "kill"     *)
+(* line is a starter that is never resumed                                    *)
 Consume == /\ l <= Len(Trace) /\ Trace[l].t \in Starters
-           /\ TokenStep(<<Trace[l].t>>)
+           /\ IF Trace[l].fault THEN FaultStep(<<Trace[l].t>>) ELSE TokenStep(<<Trace[l].t>>)
            /\ l' = l + 1
+Killed == /\ l <= Len(Trace) /\ Trace[l].t = "kill"
+          /\ Kill(<<Trace[l].victim>>)
+          /\ l' = l + 1
 Finished == l = Len(Trace) + 1 /\ UNCHANGED <<vars, l>>
-TNext == Reset \/ Consume \/ Finished
+TNext == Reset \/ Consume \/ Killed \/ Finished
 TSpec == TInit /\ [][TNext]_<<vars, l>>
 
 Matches(o) == /\ token = o.token
